@@ -375,49 +375,102 @@ func hasLambda(ts []*Term) bool {
 	return false
 }
 
-// Solve decides the conjunction of asserts with the portfolio.
+// Solve decides the conjunction of asserts with the portfolio:
+//  1. array-free arithmetic kernels: cvc5 with integer encoding;
+//  2. race z3 against cvc5 (and, when multiplications/divisions occur next to
+//     arrays, z3 on the UF-abstracted query, where only unsat is accepted);
+//  3. z3 5.1.0 as a fallback.
 func (p *SolverPool) Solve(asserts []*Term, timeoutMs int, portfolio []SolverKind) QueryResult {
 	for _, a := range asserts {
 		if a.IsFalse() {
 			return QueryResult{Verdict: Unsat, Solver: "simplifier"}
 		}
 	}
-	script, inputs, sels := ScriptSel(asserts, extraDecls())
-	var last QueryResult
 	arrays := hasArrays(asserts)
 	lam := hasLambda(asserts)
-	if !arrays && hasHardArith(asserts) {
-		// multiplication/division kernels: integer encoding first (see DESIGN section 5)
-		np := []SolverKind{kindCVC5Int}
-		for _, k := range portfolio {
-			if k.Name != kindCVC5Int.Name {
-				np = append(np, k)
-			}
-		}
-		portfolio = np
-	}
-	for _, k := range portfolio {
-		if k.Name == kindCVC5Int.Name && arrays {
-			continue
-		}
-		if lam && !strings.HasPrefix(k.Name, "z3") {
-			continue
-		}
+	hard := hasHardArith(asserts)
+	script, inputs, sels := ScriptSel(asserts, extraDecls())
+	run1 := func(k SolverKind, sc string, withModel bool, label string) QueryResult {
 		s, err := p.get(k)
 		if err != nil {
-			last = QueryResult{Verdict: Unknown, Err: err.Error(), Solver: k.Name}
-			continue
+			return QueryResult{Verdict: Unknown, Err: err.Error(), Solver: k.Name}
 		}
-		r := s.check(script, inputs, sels, timeoutMs)
+		var r QueryResult
+		if withModel {
+			r = s.check(sc, inputs, sels, timeoutMs)
+		} else {
+			r = s.check(sc, nil, nil, timeoutMs)
+		}
 		p.put(s)
+		if label != "" {
+			r.Solver = label
+		}
 		p.mu.Lock()
 		p.stats.queries++
 		p.stats.ms += r.Ms
-		p.stats.byKind[k.Name]++
+		p.stats.byKind[r.Solver]++
 		p.mu.Unlock()
+		return r
+	}
+	if len(portfolio) == 1 {
+		return run1(portfolio[0], script, true, "")
+	}
+	var last QueryResult
+	if !arrays && hard {
+		r := run1(kindCVC5Int, script, true, "")
 		if r.Verdict != Unknown {
 			return r
 		}
+		last = r
+	}
+	type cand struct {
+		k        SolverKind
+		sc       string
+		model    bool
+		label    string
+		onlyUnsat bool
+	}
+	cands := []cand{{kindZ3, script, true, "", false}}
+	if !lam {
+		cands = append(cands, cand{kindCVC5, script, true, "", false})
+	}
+	if arrays && hard {
+		if ab := abstractArith(asserts); ab != nil {
+			sc, _, _ := ScriptSel(ab, extraDecls())
+			cands = append(cands, cand{kindZ3, sc, false, k3abs, true})
+		}
+	}
+	ch := make(chan QueryResult, len(cands))
+	for _, c := range cands {
+		c := c
+		go func() {
+			r := run1(c.k, c.sc, c.model, c.label)
+			if c.onlyUnsat && r.Verdict != Unsat {
+				r.Verdict = Unknown
+			}
+			ch <- r
+		}()
+	}
+	got := 0
+	for got < len(cands) {
+		r := <-ch
+		got++
+		if r.Verdict != Unknown {
+			// the losers finish on their own (bounded by the timeout) and return to the pool
+			go func(n int) {
+				for i := 0; i < n; i++ {
+					<-ch
+				}
+			}(len(cands) - got)
+			return r
+		}
+		last = r
+	}
+	r := run1(kindZ3New, script, true, "")
+	if r.Verdict != Unknown {
+		return r
+	}
+	if last.Solver == "" {
 		last = r
 	}
 	return last
@@ -512,6 +565,52 @@ func parseValueList(s string) []string {
 			i++
 		}
 		i++
+	}
+	return out
+}
+
+const k3abs = "z3-4.8.12+uf-abstracted-mul/div"
+
+// abstractArith replaces multiplications and divisions by uninterpreted
+// functions (same function for the same operator and width).
+func abstractArith(asserts []*Term) []*Term {
+	memo := map[int]*Term{}
+	var rec func(t *Term) *Term
+	rec = func(t *Term) *Term {
+		if len(t.Args) == 0 {
+			return t
+		}
+		if r, ok := memo[t.ID]; ok {
+			return r
+		}
+		if t.Op == OpLambda {
+			memo[t.ID] = t
+			return t
+		}
+		na := make([]*Term, len(t.Args))
+		ch := false
+		for i, a := range t.Args {
+			na[i] = rec(a)
+			if na[i] != a {
+				ch = true
+			}
+		}
+		var r *Term
+		switch t.Op {
+		case OpMul, OpUDiv, OpURem, OpSDiv, OpSRem:
+			r = UF(fmt.Sprintf("abs_%s_%d", opNames[t.Op], t.W), t.W, na[0], na[1])
+		default:
+			r = t
+			if ch {
+				r = Rebuild(t, na)
+			}
+		}
+		memo[t.ID] = r
+		return r
+	}
+	out := make([]*Term, len(asserts))
+	for i, a := range asserts {
+		out[i] = rec(a)
 	}
 	return out
 }
